@@ -42,8 +42,12 @@
     * String building: the cost of `tok.val` concatenation, `strings.Join`, the `String()` builders (the
       quadratic defects found at /repo 96546c0 and c3ff971 were there).  A count over state calls and
       tokens cannot see it; it is covered by the C05scale allocation probe only.
-    * The nested lexer of a quoted expression (`parseQuotedExpr` lexes the string's contents with
-      `lexAll str true`, budget `7·|str| + 8`, `|str| ≤ n`).
+    * The nested lexer and parser of a quoted expression are bounded one by one
+      (`parseQuotedExpr_budget`: `7·|str| + 8` and `16·|str| + 72`) and, given that the strings come from
+      distinct tokens, in sum (`quoted_budgets_sum_le`, `229·n + 149`); that premise is read off the model,
+      not proved (last section).
+    * The SUM of the budgets handed to the embedded expression parses of a file is not linear (each gets
+      the budget of the whole token stream); what they consume is not stated (last section).
 -/
 import SoyVerif.Props.C05parse
 import SoyVerif.Lemmas.FuelMono
@@ -361,5 +365,112 @@ theorem lexAll_positions_sorted (input : Bytes) (exprMode : Bool) :
         · rename_i s' l' _; simp only [List.length_cons]; have := ih s' l'; omega
         · simp
     exact hlen _ _ _
+
+/-! ## The nested lexer and parser of a quoted attribute expression
+
+  `data="…"`, `value="…"` and the expression of `{css e, x}` are lexed and parsed by a NEW lexer and a
+  new parser (`parseQuotedExpr str`).  Their budgets are those of a standalone expression of `|str|`
+  bytes: `7·|str| + 8` state-function calls and a parser budget of at most `16·|str| + 72`
+  (`parseQuotedExpr_budget`).
+
+  The strings: `str` is `strconv.Unquote` of ONE String token (`parseAttrs`; an attribute is looked up
+  at most once per tag) or a trimmed prefix of ONE Text token (`parseCss`).  The tokens of a file are
+  disjoint pieces of the input (`lex_items_slice`, `lexAll_vals_le`: their values sum to at most `n + 1`
+  bytes), so the quoted strings of one file together are linear in `n`: `quoted_budgets_sum_le` — for any
+  choice of strings, one per token of a SUB-list of the token stream and at most 3 times as long as
+  that token (an unquoted string is at most as long as its quoted form EXCEPT that a byte that is not
+  valid UTF-8 becomes the 3 bytes of U+FFFD), the budgets `23·|str| + 80` sum to at most
+  `69·(n + 1) + 80·(2n + 1) = 229·n + 149`.
+  That each quoted string of a run comes from a token of its own is read off the model
+  (`parseAttrs`, `parseCallHead`, `callParamsLoop`, `parseCss`); it is NOT a theorem: the run of the
+  model leaves no trace of its calls.
+
+  What is NOT linear as a SUM OF BUDGETS: every embedded expression of a file is parsed on the budget
+  `ef = 8·|is| + 64` of the WHOLE token stream (it is a limit on depth + iterations, sufficient
+  whatever remains of the stream); a file has up to `|is| / 3` expressions, so the budgets handed out add
+  up to a quadratic number although each parse can only consume the tokens in front of it.  The steps
+  CONSUMED cannot be stated without a counter in the model. -/
+
+/-- the budget of one quoted expression of `m` bytes: nested lexer + nested parser -/
+def quotedBudget (m : Nat) : Nat := Lex.fuelFor m + sourceFuel m
+
+theorem quotedBudget_eq (m : Nat) : quotedBudget m = 23 * m + 80 := by
+  unfold quotedBudget Lex.fuelFor sourceFuel; omega
+
+/-- one quoted expression: the nested lexer ends within `7·|str| + 8` state calls, sends at most
+    `2·|str| + 1` items, the nested parser's budget is at most `16·|str| + 72`, and
+    `parseQuotedExpr` never answers `fuelOut` -/
+theorem parseQuotedExpr_budget (pf : Bytes → Option UInt64) (str : Bytes) :
+    Lex.lexAll str true ≠ .fuelOut ∧
+    (∃ is, Lex.lexAll str true = .items is ∧ is.length ≤ 2 * str.length + 1 ∧
+      Parser.fuelFor is.length ≤ sourceFuel str.length) ∧
+    ∀ st, parseQuotedExpr pf str st ≠ .error .fuelOut := by
+  obtain ⟨is, hl, _⟩ := lex_items str true
+  have hle := lexAll_items_le str true is hl
+  refine ⟨lex_total str true, ⟨is, hl, hle, by unfold Parser.fuelFor sourceFuel; omega⟩, ?_⟩
+  intro st
+  have htot : parseExprFuel pf (Parser.fuelFor is.length) is ≠ .error .fuelOut :=
+    parse_expr_total_fuel pf _ is (by unfold Parser.fuelFor; omega)
+  unfold parseExprFuel at htot
+  unfold parseQuotedExpr
+  rw [hl]
+  simp only
+  split
+  · split <;> simp
+  · show (liftP Parser.errorf : FP Expr) st ≠ _
+    unfold liftP Parser.errorf
+    split
+    · simp
+    · simp
+    · simp
+    · rename_i heq
+      exfalso
+      unfold Parser.errPos at heq
+      split at heq
+      · simp at heq
+      · rename_i _ e hpe
+        simp only [Except.error.injEq] at heq
+        subst heq
+        repeat' split at hpe
+        all_goals simp at hpe
+  · simp
+  · rename_i he
+    rw [he] at htot
+    exact absurd rfl htot
+
+theorem sum_map_le_of_sublist (g : Item → Nat) {ts is : List Item} (h : ts.Sublist is) :
+    (ts.map g).sum ≤ (is.map g).sum := by
+  induction h with
+  | slnil => simp
+  | cons a _ ih => simp only [List.map_cons, List.sum_cons]; omega
+  | cons_cons a _ ih => simp only [List.map_cons, List.sum_cons]; omega
+
+theorem sum_map_le_of_le (g h : Item → Nat) (ts : List Item) (hgh : ∀ t, g t ≤ h t) :
+    (ts.map g).sum ≤ (ts.map h).sum := by
+  induction ts with
+  | nil => simp
+  | cons t r ih => simp only [List.map_cons, List.sum_cons]; have := hgh t; omega
+
+theorem sum_map_affine (c d : Nat) (is : List Item) :
+    (is.map (fun t => c * t.val.length + d)).sum = c * (is.map (·.val.length)).sum + d * is.length := by
+  induction is with
+  | nil => simp
+  | cons t r ih =>
+    simp only [List.map_cons, List.sum_cons, List.length_cons, ih, Nat.mul_add, Nat.mul_one]
+    omega
+
+/-- the quoted expressions of one file: strings taken one per token of a sub-list of the token stream,
+    each at most 3 times as long as its token — their budgets together are linear in the byte length -/
+theorem quoted_budgets_sum_le (input : Bytes) (is : List Item) (hl : Lex.lexAll input false = .items is)
+    (ts : List Item) (hsub : ts.Sublist is) (str : Item → Bytes)
+    (hstr : ∀ t, (str t).length ≤ 3 * t.val.length) :
+    (ts.map (fun t => quotedBudget (str t).length)).sum ≤ 229 * input.length + 149 := by
+  have h1 := lexAll_items_le input false is hl
+  have h2 := lexAll_vals_le input false is hl
+  have h3 : (ts.map (fun t => quotedBudget (str t).length)).sum ≤ (ts.map (fun t => 69 * t.val.length + 80)).sum :=
+    sum_map_le_of_le _ _ ts (fun t => by rw [quotedBudget_eq]; have := hstr t; omega)
+  have h4 := sum_map_le_of_sublist (fun t => 69 * t.val.length + 80) hsub
+  have h5 := sum_map_affine 69 80 is
+  omega
 
 end SoyVerif.Props.C05
